@@ -45,7 +45,14 @@ out.append('### 10.8 Seeded changes (independent sub-agents) and which check cat
 out.append('Each change was produced by a fresh sub-agent that saw only the property text and a scratch')
 out.append('worktree, compiles, passes the existing tests of the touched packages, and comes with a')
 out.append('demonstration test that fails with it and passes without (verified with tools/verify_seed.sh).')
-out.append('Detection = `git -C /repo apply patch.diff`, run the property\'s quick check, `git checkout`.\n')
+out.append('Detection = `git -C /repo apply patch.diff`, run the property\'s quick check, `git checkout` (tools/seed_matrix.sh).')
+out.append('Every seed is also registered as a patch-kind positive control (controls/<id>/seeds.json), so each thorough run')
+out.append('re-establishes the table below. Two seeds per property: round a, then round b (told to avoid the area of round a).')
+out.append('Most seeds were NOT reported by the rules as first built: in round a roughly half of them led to a new rule (C02.6,')
+out.append('C03.2, C06.X, C07.3.kind-names, C10.6, C11.6, C12.6, C13.5, C14.3, C16.2, C17.4, C19.6, C20.2), in round b all but')
+out.append('C01b and C18b did (§10.2). Two of the round-b rules found further upstream defects (F20, F21). The lesson for')
+out.append('this family: a rule set derived from the mechanisms one has read is narrower than the set of mechanisms a')
+out.append('property depends on; independent breakage is what shows where.\n')
 det = {}
 if os.path.exists(V + '/seeded/detection.json'):
     det = json.load(open(V + '/seeded/detection.json'))
@@ -64,7 +71,9 @@ for m in sorted(glob.glob(V + '/seeded/*/meta.json')):
     if isinstance(rep, dict):
         by = rep.get('checked_by', '')
         rep = rep.get('reported')
-    if rep is None:
+    if meta.get('superseded'):
+        r = 'superseded: ' + meta['superseded'].replace('|', '/')
+    elif rep is None:
         r = '(not run)'
     elif not rep:
         r = '**not detected**'
